@@ -281,7 +281,7 @@ func keyBoundary() map[string]*big.Int {
 }
 
 func TestVX_C12(t *testing.T) {
-	r := vx.Begin("C12", "keys", "GenerateKey on every candidate stream of <=3 rejected candidates from {0,n-1,n,n+1,2^256-1} followed by one of {1,2,n-2,seeded} (d, bytes consumed and [d]G compared with sm2ref); TestPrivateKey on boundary values and n-1 with byte i +-1 for every i (tails kept/zeroed/ff), lengths 0..40; DerivePublic on the same scalars and lengths 0,31,33; CheckOnCurve on [k]G for k in {1..16,n-1,seeded}, every single-bit flip of x and y, off-curve pairs whose y^2 differs from x^3+ax+b only in structured bit sets of the value or of its Montgomery form (single bits, high/low limb halves), x+p encodings, (0,0), coordinates >= p, wrong lengths incl. x||y of an on-curve point cut at every position 0..64; results of earlier GenerateKey/DerivePublic calls compared with copies after later calls, then overwritten by the caller before a fresh derivation; GenerateKey on runs of 8..1000 rejected candidates. Shape = (function, class)")
+	r := vx.Begin("C12", "keys", "GenerateKey on every candidate stream of <=3 rejected candidates from {0,n-1,n,n+1,2^256-1} followed by one of {1,2,n-2,seeded} (d, bytes consumed and [d]G compared with sm2ref); TestPrivateKey on boundary values and n-1 with byte i +-1 for every i (tails kept/zeroed/ff), lengths 0..40; DerivePublic on the same scalars and lengths 0,31,33; CheckOnCurve on [k]G for k in {1..16,n-1,seeded}, every single-bit flip of x and y, off-curve pairs whose y^2 differs from x^3+ax+b only in structured bit sets of the value or of its Montgomery form (single bits, high/low limb halves), x+p encodings, canonical points with x at word boundaries (p-2^(64i)+-j, 2^(64i)+-j, low 32/64 bits all ones) and at the special x of the verification equation, (0,0), coordinates >= p, wrong lengths incl. x||y of an on-curve point cut at every position 0..64; results of earlier GenerateKey/DerivePublic calls compared with copies after later calls, then overwritten by the caller before a fresh derivation; GenerateKey on runs of 8..1000 rejected candidates. Shape = (function, class)")
 	defer r.End()
 	selfCheck()
 	if raw, ok := vx.Replay("keys"); ok {
@@ -425,6 +425,21 @@ func TestVX_C12(t *testing.T) {
 		run(c12case{"oncurve", hexs(b32(new(big.Int).Add(P.X, sm2ref.P)), b32(P.Y)), fmt.Sprintf("smallx%d:x+p", pi), c12opts{}})
 		if yp := new(big.Int).Add(P.Y, sm2ref.P); yp.BitLen() <= 256 {
 			run(c12case{"oncurve", hexs(b32(P.X), b32(yp)), fmt.Sprintf("smallx%d:y+p", pi), c12opts{}})
+		}
+	}
+	// canonical points whose x lies at a word boundary of a range check or conversion (p - 2^(64i) +- j, 2^(64i) +- j,
+	// low 32 / 64 bits all ones) and the special x of the verification equation: all must be accepted, x+p (where it
+	// fits) refused (seeded C12-M: a word-wise "x <= p-1" that loses the borrow of the lowest word refuses p-2^64+1..p-1)
+	{
+		pts, names := sm2ref.WordBoundaryXPoints()
+		p2, n2 := sm2ref.SpecialXPoints()
+		pts, names = append(pts, p2...), append(names, n2...)
+		for i, P := range pts {
+			run(c12case{"oncurve", hexs(b32(P.X), b32(P.Y)), "wordx:" + names[i], c12opts{}})
+			run(c12case{"oncurve", hexs(b32(P.Y), b32(P.X)), "wordx:" + names[i] + ":swapped", c12opts{}})
+			if xp := new(big.Int).Add(P.X, sm2ref.P); xp.BitLen() <= 256 {
+				run(c12case{"oncurve", hexs(b32(xp), b32(P.Y)), "wordx:" + names[i] + ":x+p", c12opts{}})
+			}
 		}
 	}
 	g := sm2ref.G()
